@@ -13,6 +13,7 @@ import (
 	"github.com/google/fhir/go/jsonformat"
 	"github.com/shopspring/decimal"
 	"github.com/verily-src/fhirpath-go/fhirpath"
+	"github.com/verily-src/fhirpath-go/fhirpath/evalopts"
 	"github.com/verily-src/fhirpath-go/fhirpath/internal/expr"
 	"github.com/verily-src/fhirpath-go/fhirpath/internal/funcs/impl"
 	"github.com/verily-src/fhirpath-go/fhirpath/system"
@@ -251,3 +252,5 @@ func mustDec(s string) decimal.Decimal {
 func mustElementHumanName(family string) *dtpb.HumanName {
 	return &dtpb.HumanName{Family: fhir.String(family)}
 }
+
+func envVar(name string, v any) fhirpath.EvaluateOption { return evalopts.EnvVariable(name, v) }
